@@ -230,7 +230,7 @@ def build_jobs(pid, tier, seed, workdir):
         jobs += cj; runno += len(cj)
         sched_stats["classification cases"] = len(cj)
     elif "class-raw" in ex:
-        cj = [j for j in scen.class_jobs(seed, tier, start_run=runno) if j["tag"] == "class-raw"]
+        cj = [j for j in scen.class_jobs(seed, tier, start_run=runno) if j["tag"] in ("class-raw", "class-hint")]
         for k, j in enumerate(cj):
             j["run"] = runno + k
         jobs += cj; runno += len(cj)
